@@ -61,7 +61,15 @@ def prepare(tier):
     procseam.install()
 
 
+UNPRIV = ('ro-file', 'ro-dir-with-file', 'ro-nested', 'no-perm-dir', 'ro-dir-in-tmp')
+
+
 def cases(tier):
+    if os.getuid() == 0:
+        # the checks run as root, for whom no permission bits matter: these cases drop to an unprivileged user in a forked child
+        for v in UNPRIV:
+            for ending in ('pass', 'fail'):
+                yield ('unpriv', v, ending)
     for e in endings():
         for keep in (False, True, 'act'):
             for b in BEHAVIOURS:
@@ -158,7 +166,100 @@ def _ls(p):
         return 'ERR:%s' % ex
 
 
+def _unpriv(case) -> Result:
+    """A test case that makes parts of its sandbox read-only, run by an ordinary (non-root) user: the sandbox is still removed."""
+    import json
+    _, variant, ending = case
+    res = Result()
+    res.n = 1
+    res.nontrivial += 1
+    w = world.get()
+    w.reset()
+    seam = procseam.SEAM
+    seam.reset()
+    seam.default = {'exit': 0}
+    for dp, dns, fns in os.walk(str(w.root)):
+        os.chmod(dp, 0o777)
+    os.chmod(str(w.root), 0o777)
+    os.chmod(str(w.root.parent), 0o755)  # the base of all scratch worlds (made by mkdtemp: 0700)
+    where = '-rel-tmp ' if variant == 'ro-dir-in-tmp' else ''
+    lines = ['[setup]', 'dir %sd/e' % where, "file %sd/f.txt = 'x'" % where, "file %sd/e/g.txt = 'x'" % where, 'run % mkro', '[act]', '% atc', '[assert]',
+             'exit-code == %d' % (0 if ending == 'pass' else 1)]
+    text = '\n'.join(lines) + '\n'
+
+    def hook(rec):
+        if rec['name'] != 'mkro':
+            return
+        base = rec['cwd'] if variant != 'ro-dir-in-tmp' else os.path.join(os.path.dirname(rec['cwd']), 'tmp')
+        d = os.path.join(base, 'd')
+        if variant == 'ro-file':
+            os.chmod(os.path.join(d, 'f.txt'), 0o444)
+        elif variant in ('ro-dir-with-file', 'ro-dir-in-tmp'):
+            os.chmod(d, 0o555)
+        elif variant == 'ro-nested':
+            os.chmod(os.path.join(d, 'e'), 0o555)
+            os.chmod(d, 0o555)
+        else:
+            os.chmod(d, 0o000)
+
+    seam.on_call = hook
+    rfd, wfd = os.pipe()
+    pid = os.fork()
+    if pid == 0:
+        out = {}
+        try:
+            world._WORLD_PID[0] = os.getpid()  # the child works in the parent's world
+            os.setgroups([])
+            os.setgid(65534)
+            os.setuid(65534)
+            o = cli.run_case(text)
+            out = {'ident': o.ident, 'rc': o.rc, 'exc': o.exc, 'sandboxes': w.sandboxes(), 'err': o.err[:600], 'uid': os.getuid()}
+        except BaseException as ex:  # noqa
+            out = {'exc': 'harness: %r' % (ex,)}
+        try:
+            os.write(wfd, json.dumps(out).encode('utf-8'))
+        finally:
+            os._exit(0)
+    os.close(wfd)
+    data = b''
+    while True:
+        b = os.read(rfd, 65536)
+        if not b:
+            break
+        data += b
+    os.close(rfd)
+    os.waitpid(pid, 0)
+    got = json.loads(data.decode('utf-8')) if data else {'exc': 'harness: no result from the child'}
+    errs = []
+    want = 'PASS' if ending == 'pass' else 'FAIL'
+    if got.get('exc'):
+        errs.append('exception: %s' % got['exc'])
+    elif got.get('uid') == 0:
+        errs.append('harness: the child still runs as root')
+    else:
+        if got['ident'] != want:
+            errs.append('outcome %s, expected %s / %s' % (got['ident'], want, ' / '.join(cli.stderr_lines(got['err'])[-3:])[:300]))
+        if got['sandboxes']:
+            errs.append('run by an unprivileged user, the case made part of its sandbox read-only (%s): the sandbox was NOT removed when execution ended' % variant)
+    # the parent (root) can always clean up
+    for dp, dns, fns in os.walk(str(w.sb)):
+        for n in dns:
+            try:
+                os.chmod(os.path.join(dp, n), 0o777)
+            except OSError:
+                pass
+    res.outcomes[('unpriv', variant, got.get('ident'), bool(got.get('sandboxes')))] += 1
+    res.states.add(('unpriv', variant, 'removed' if not got.get('sandboxes') else 'left'))
+    if errs:
+        res.violation(case, errs, {'file': text})
+    else:
+        res.validated += 1
+    return res
+
+
 def run(case) -> Result:
+    if case[0] == 'unpriv':
+        return _unpriv(case)
     ending, mode, behaviour, output = case
     ending = tuple(ending)
     base_ending, cleanup_kind = split_ending(ending)
